@@ -667,17 +667,47 @@ class Workspace(AbstractContextManager):
         Search and remove deleted entities
         """
         rem_list: list = []
+        stored_users: set | None = None
         for key, value in referents.items():
             if value() is None:
                 rem_list += [key]
                 # property groups are stored with their object, not in a flat container
-                if rtype != "PropertyGroups":
-                    self._io_call(
-                        H5Writer.remove_entity, key, rtype, parent=self, mode="r+"
-                    )
+                if rtype == "PropertyGroups":
+                    continue
+
+                # concatenated data are not loaded with their group: a type without
+                # a live reference may still be the type of some of them
+                if rtype == "Types":
+                    if stored_users is None:
+                        stored_users = self._concatenated_type_ids()
+                    if key in stored_users:
+                        continue
+
+                self._io_call(
+                    H5Writer.remove_entity, key, rtype, parent=self, mode="r+"
+                )
 
         for key in rem_list:
             del referents[key]
+
+    def _concatenated_type_ids(self) -> set[uuid.UUID]:
+        """
+        Identifiers of the types that the concatenated data of the workspace refer
+        to, whether the data were loaded or not.
+        """
+        type_ids = set()
+        for reference in self._groups.values():
+            group = reference()
+            if not isinstance(group, Concatenator):
+                continue
+
+            for attributes in (group.concatenated_attributes or {}).get(
+                "Attributes", []
+            ):
+                if "Type ID" in attributes:
+                    type_ids.add(str2uuid(attributes["Type ID"]))
+
+        return type_ids
 
     def remove_recursively(self, entity: Entity | PropertyGroup):
         """Delete an entity and its children from the workspace and geoh5 recursively"""
